@@ -39,6 +39,14 @@
 //     dns.Msg, caches, …) is abstract: parameters of such types are dropped and
 //     an expression that reads from them (`req.Question[0].Qtype`) becomes an
 //     extra parameter `e<k>_<name>` holding its value;
+//   - a *value* of abstract type (local, result of an opaque call, parameter
+//     that is compared with nil) is modelled by what the code can observe of
+//     it: `AbsPtr` (true = non-nil) for pointers, interfaces, maps, slices, …,
+//     `Unit` otherwise; `&T{…}` of abstract type is non-nil; an assignment to a
+//     field of an abstract object (`resp.Compress = true`) is an effect and is
+//     appended to the trace as `("set resp.Compress", ["true"])`; values read
+//     from abstract objects are re-read (fresh parameters) after any opaque
+//     call or such a write;
 //   - []error literals, append on them and errors.Join are lists of optional
 //     texts and "first non-nil" (errors.Join is non-nil iff an element is);
 //   - any other call is *opaque*: its result becomes an extra parameter of the
@@ -62,10 +70,6 @@
 //     mentioned get their zero value); &T{…} is `some` of it;
 //   - `defer func() { err = errors.Annotate(err, …) }()` is dropped: it changes
 //     the text of a non-nil error only (nil stays nil);
-//   - a pointer to an abstract (library) struct has no value in Lean: `p == nil`
-//     / `p != nil` on it is an opaque Boolean parameter `e<k>_<p>_isNil` (one per
-//     source text of p), and a definition `x := e` of a local of an abstract
-//     type binds nothing (a call on the right-hand side is still traced).
 //
 // Anything else is a translation error: the generated definition is replaced
 // by a marker that makes the Tie theorem fail, i.e. a broken obligation.
@@ -290,11 +294,7 @@ func (t *translator) leanType(ty types.Type) string {
 	case *types.Tuple:
 		var parts []string
 		for i := 0; i < u.Len(); i++ {
-			p := t.leanType(u.At(i).Type())
-			if p == "" {
-				p = "Unit"
-			}
-			parts = append(parts, p)
+			parts = append(parts, t.valType(u.At(i).Type()))
 		}
 		if len(parts) == 0 {
 			return "Unit"
@@ -303,6 +303,24 @@ func (t *translator) leanType(ty types.Type) string {
 	}
 	return ""
 }
+
+// valType is the Lean type of a *value* (local, parameter that is compared with
+// nil, result of an opaque call): the translated type when there is one,
+// `AbsPtr` (its nil-ness: true = non-nil) for pointers, interfaces, maps,
+// channels, functions and slices of abstract type, `Unit` for other abstract
+// values.
+func (t *translator) valType(ty types.Type) string {
+	if lt := t.leanType(ty); lt != "" {
+		return lt
+	}
+	switch ty.Underlying().(type) {
+	case *types.Pointer, *types.Interface, *types.Map, *types.Chan, *types.Signature, *types.Slice:
+		return "AbsPtr"
+	}
+	return "Unit"
+}
+
+func (t *translator) isAbstract(ty types.Type) bool { return t.leanType(ty) == "" }
 
 func sanitize(s string) string {
 	r := strings.NewReplacer(".", "_", "/", "_", "-", "_", "*", "", "(", "", ")", "", "[", "_", "]", "_", " ", "")
@@ -393,6 +411,7 @@ type fctx struct {
 	localFns    map[string]*ast.FuncLit
 	loop        *loopCtx
 	opaqueVals  map[string]string
+	opaqueNodes map[ast.Expr]string
 	opaqueCalls map[*ast.CallExpr]string
 }
 
@@ -592,6 +611,26 @@ func (c *fctx) expr(e ast.Expr) ex {
 	case *ast.SelectorExpr:
 		return c.selector(x)
 	case *ast.UnaryExpr:
+		if cl, ok := x.X.(*ast.CompositeLit); ok && x.Op == token.AND && c.t.isAbstract(c.typeOf(x)) {
+			// a freshly allocated abstract object: non-nil; calls among its
+			// elements are evaluated (for the trace)
+			var xs []ex
+			for _, el := range cl.Elts {
+				v := el
+				if kv, ok := el.(*ast.KeyValueExpr); ok {
+					v = kv.Value
+				}
+				if _, isCall := v.(*ast.CallExpr); isCall {
+					xs = append(xs, c.expr(v))
+				}
+			}
+			return c.bindN(xs, func(s []string) string {
+				if len(s) == 0 {
+					return "true"
+				}
+				return "(Function.const _ true (" + strings.Join(s, ", ") + "))"
+			})
+		}
 		if lit, ok := x.X.(*ast.CompositeLit); ok && x.Op == token.AND {
 			// &T{…}: a non-nil pointer
 			return c.bindN([]ex{c.expr(lit)}, func(s []string) string { return "(some " + s[0] + ")" })
@@ -702,13 +741,24 @@ func (c *fctx) opaqueValue(e ast.Expr) ex {
 	if c.opaqueVals == nil {
 		c.opaqueVals = map[string]string{}
 	}
+	if c.opaqueNodes == nil {
+		c.opaqueNodes = map[ast.Expr]string{}
+	}
+	// the same source expression in the two copies of a duplicated
+	// continuation is one parameter (only one copy runs)
+	if n, ok := c.opaqueNodes[e]; ok {
+		c.opaqueVals[key] = n
+		return ex{code: n}
+	}
 	if n, ok := c.opaqueVals[key]; ok {
+		c.opaqueNodes[e] = n
 		return ex{code: n}
 	}
 	c.nOpaque++
 	name := fmt.Sprintf("e%d_%s", c.nOpaque, sanitize(lastName(key)))
 	c.opaque = append(c.opaque, fmt.Sprintf("(%s : %s)", name, lt))
 	c.opaqueVals[key] = name
+	c.opaqueNodes[e] = name
 	return ex{code: name}
 }
 
@@ -778,23 +828,12 @@ func (c *fctx) binary(x *ast.BinaryExpr) ex {
 			if c.isRecvVal(x.X) {
 				return ex{code: fmt.Sprint(x.Op == token.NEQ)}
 			}
-			if _, isPtr := tx.Underlying().(*types.Pointer); isPtr && c.t.leanType(tx) == "" {
-				// pointer to an abstract (library) struct: its nil-ness is an opaque Boolean
-				key := "isNil " + c.show(x.X)
-				if c.opaqueVals == nil {
-					c.opaqueVals = map[string]string{}
-				}
-				name, seen := c.opaqueVals[key]
-				if !seen {
-					c.nOpaque++
-					name = fmt.Sprintf("e%d_%s_isNil", c.nOpaque, sanitize(lastName(c.show(x.X))))
-					c.opaque = append(c.opaque, fmt.Sprintf("(%s : Bool)", name))
-					c.opaqueVals[key] = name
-				}
+			if c.t.valType(tx) == "AbsPtr" {
+				a := c.expr(x.X)
 				if x.Op == token.NEQ {
-					return ex{code: "(!" + name + ")"}
+					return a
 				}
-				return ex{code: name}
+				return c.bindN([]ex{a}, func(s []string) string { return "(!" + s[0] + ")" })
 			}
 			a := c.expr(x.X)
 			m := "isNone"
@@ -942,14 +981,15 @@ func (c *fctx) call(x *ast.CallExpr) ex {
 				return c.bindN(xs, func(s []string) string { return "(" + s[0] + " ++ [" + strings.Join(s[1:], ", ") + "])" })
 			case "len":
 				at := c.typeOf(x.Args[0])
-				a := c.expr(x.Args[0])
 				if _, ok := at.Underlying().(*types.Slice); ok && c.t.leanType(at) != "" {
+					a := c.expr(x.Args[0])
 					return c.bindN([]ex{a}, func(s []string) string { return "(" + s[0] + ".length : Int)" })
 				}
 				if isString(at) {
+					a := c.expr(x.Args[0])
 					return c.bindN([]ex{a}, func(s []string) string { return "(" + s[0] + ".utf8ByteSize : Int)" })
 				}
-				fail("len of %s", at)
+				return c.opaqueValue(x)
 			case "min", "max":
 				var xs []ex
 				for _, a := range x.Args {
@@ -1057,10 +1097,8 @@ func (c *fctx) call(x *ast.CallExpr) ex {
 		}
 	}
 	// opaque call
-	lt := c.t.leanType(c.typeOf(x))
-	if lt == "" {
-		fail("opaque call %s returns untranslatable type %s", c.show(x), c.typeOf(x))
-	}
+	lt := c.t.valType(c.typeOf(x))
+	c.opaqueVals = nil // an external call may change what abstract objects hold
 	if c.opaqueCalls == nil {
 		c.opaqueCalls = map[*ast.CallExpr]string{}
 	}
@@ -1096,6 +1134,9 @@ func (c *fctx) traceArg(a ast.Expr) (code string) {
 			}
 		}
 	}()
+	if id, ok := a.(*ast.Ident); ok && id.Name == "_" {
+		return code
+	}
 	tv, ok := c.p.info.Types[a]
 	if !ok || tv.Type == nil {
 		return code
@@ -1118,6 +1159,9 @@ func (c *fctx) traceArg(a ast.Expr) (code string) {
 }
 
 func lastName(s string) string {
+	if i := strings.Index(s, "["); i > 0 && strings.HasSuffix(s, "]") && !strings.Contains(s[i:], ".") || i > 0 && strings.HasSuffix(s, "]") && strings.HasPrefix(s[i:], "[*") {
+		s = s[:i] // generic instantiation f[T]
+	}
 	if i := strings.LastIndex(s, "."); i >= 0 {
 		return s[i+1:]
 	}
@@ -1446,7 +1490,7 @@ func (c *fctx) stmts(list []ast.Stmt) string {
 			}
 			for _, n := range vs.Names {
 				z := c.zero(c.p.info.Defs[n].Type())
-				out += fmt.Sprintf("let %s : %s := %s\n", leanIdent(n.Name), c.t.leanType(c.p.info.Defs[n].Type()), z)
+				out += fmt.Sprintf("let %s : %s := %s\n", leanIdent(n.Name), c.t.valType(c.p.info.Defs[n].Type()), z)
 			}
 		}
 		return out + c.stmts(rest)
@@ -1535,6 +1579,12 @@ func (c *fctx) zero(t types.Type) string {
 	case strings.HasPrefix(lt, "(List"):
 		return "[]"
 	}
+	switch c.t.valType(t) {
+	case "AbsPtr":
+		return "false"
+	case "Unit":
+		return "()"
+	}
 	fail("zero value of %s", t)
 	return ""
 }
@@ -1592,6 +1642,28 @@ func (c *fctx) desugarSwitch(x *ast.SwitchStmt) []ast.Stmt {
 }
 
 func (c *fctx) assignStmt(x *ast.AssignStmt, rest []ast.Stmt) string {
+	if len(x.Lhs) == 1 && len(x.Rhs) == 1 && c.abstractTarget(x.Lhs[0]) {
+		op := ""
+		if x.Tok != token.ASSIGN {
+			op = " " + x.Tok.String()
+		}
+		isBuiltin := func(call *ast.CallExpr) bool {
+			id, ok := call.Fun.(*ast.Ident)
+			if !ok {
+				return false
+			}
+			_, b := c.p.info.Uses[id].(*types.Builtin)
+			return b
+		}
+		if call, ok := x.Rhs[0].(*ast.CallExpr); ok && !isBuiltin(call) {
+			// evaluate the call first (for the trace), then record the write
+			e := c.expr(call)
+			return c.withEx(e, func(string) string {
+				return c.abstractWrite(x.Lhs[0], op, &ast.Ident{Name: "_"}, func() string { return c.stmts(rest) })
+			})
+		}
+		return c.abstractWrite(x.Lhs[0], op, x.Rhs[0], func() string { return c.stmts(rest) })
+	}
 	if x.Tok != token.ASSIGN && x.Tok != token.DEFINE {
 		// op=
 		if len(x.Lhs) != 1 {
@@ -1605,13 +1677,6 @@ func (c *fctx) assignStmt(x *ast.AssignStmt, rest []ast.Stmt) string {
 		be := &ast.BinaryExpr{X: x.Lhs[0], Op: op, Y: x.Rhs[0]}
 		c.p.info.Types[be] = types.TypeAndValue{Type: c.typeOf(x.Lhs[0])}
 		return c.assign(x.Lhs[0], c.expr(be), rest, nil)
-	}
-	if id, ok := x.Lhs[0].(*ast.Ident); ok && len(x.Lhs) == 1 && len(x.Rhs) == 1 && x.Tok == token.DEFINE && id.Name != "_" && c.t.leanType(c.lhsType(id)) == "" {
-		// `x := e` with x of an abstract (library) type binds nothing; a call on the right is still traced
-		if call, isCall := x.Rhs[0].(*ast.CallExpr); isCall && c.trace && !c.matches(c.spec.Pure, call) {
-			return "let tr := tr ++ [" + c.traceEntry(call) + "]\n" + c.stmts(rest)
-		}
-		return c.stmts(rest)
 	}
 	if len(x.Lhs) == len(x.Rhs) {
 		if len(x.Lhs) == 1 {
@@ -1686,6 +1751,33 @@ func (c *fctx) assign(lhs ast.Expr, e ex, rest []ast.Stmt, _ ast.Expr) string {
 }
 
 // assignCode emits `lhs := code` followed by k().
+// abstractTarget reports whether lhs is a field (path) of an abstract object.
+func (c *fctx) abstractTarget(lhs ast.Expr) bool {
+	se, ok := lhs.(*ast.SelectorExpr)
+	if !ok {
+		return false
+	}
+	if id, ok := se.X.(*ast.Ident); ok {
+		if _, isPkg := c.p.info.Uses[id].(*types.PkgName); isPkg {
+			return false
+		}
+	}
+	return c.t.isAbstract(c.typeOf(se.X)) || c.abstractTarget(se.X)
+}
+
+// abstractWrite records an assignment to a field of an abstract object in the trace.
+func (c *fctx) abstractWrite(lhs ast.Expr, op string, rhs ast.Expr, k func() string) string {
+	if !c.trace {
+		fail("assignment to %s, a field of an abstract object (needs trace)", c.show(lhs))
+	}
+	val := c.traceArg(rhs)
+	if val == "\"_\"" {
+		val = fmt.Sprintf("%q", c.show(rhs))
+	}
+	c.opaqueVals = nil
+	return fmt.Sprintf("let tr := tr ++ [(%q, [%s])]\n", "set "+c.show(lhs)+op, val) + k()
+}
+
 func (c *fctx) assignCode(lhs ast.Expr, code string, k func() string) string {
 	switch l := lhs.(type) {
 	case *ast.Ident:
@@ -1808,11 +1900,27 @@ func (t *translator) translate(sp TrFunc) (fo *funcOut) {
 			return true
 		})
 	}
+	nilCompared := map[string]bool{}
+	ast.Inspect(fd.Body, func(n ast.Node) bool {
+		if be, ok := n.(*ast.BinaryExpr); ok && (be.Op == token.EQL || be.Op == token.NEQ) {
+			for _, pair := range [][2]ast.Expr{{be.X, be.Y}, {be.Y, be.X}} {
+				if id, ok := pair[1].(*ast.Ident); ok && id.Name == "nil" {
+					if v, ok := pair[0].(*ast.Ident); ok {
+						nilCompared[v.Name] = true
+					}
+				}
+			}
+		}
+		return true
+	})
 	for i := 0; i < sig.Params().Len(); i++ {
 		v := sig.Params().At(i)
 		lt := t.leanType(v.Type())
 		if lt == "" {
-			// unused or only passed to opaque calls: drop it
+			if nilCompared[v.Name()] && t.valType(v.Type()) == "AbsPtr" {
+				params = append(params, fmt.Sprintf("(%s : AbsPtr)", leanIdent(v.Name())))
+			}
+			// otherwise unused or only passed to opaque calls: drop it
 			continue
 		}
 		params = append(params, fmt.Sprintf("(%s : %s)", leanIdent(v.Name()), lt))
